@@ -2,6 +2,7 @@ SPECIFICATION Spec
 CONSTANTS
   SingleClasses = {"empty", "zero", "neg1", "one", "typical", "huge", "nonnum", "float", "inf", "wrongsep", "brokenlist"}
   PairClasses = {"zero", "neg1", "huge"}
-  PairTails = {"mpd", "anum"}
+  PairTails = {"mpd"}
   PatchClasses = {"zero", "neg1", "huge", "nonnum", "typical"}
+  LLTails = {"mpd", "vnum", "anum"}
 INVARIANTS TypeOK Sane Emit
